@@ -6,7 +6,9 @@ import (
 	"fmt"
 	"os"
 	"path/filepath"
+	"runtime"
 	"strconv"
+	"sync"
 
 	"github.com/gkampitakis/go-snaps/internal/vxrt"
 	"github.com/tidwall/gjson"
@@ -19,16 +21,25 @@ type mockT struct {
 	logs     []any
 	cleanups []func()
 	skips    int
+	// exitOnSkip makes Skip/Skipf/SkipNow end the calling goroutine the way testing.T does
+	// (runtime.Goexit); only for test bodies that run on a goroutine of their own (runTest)
+	exitOnSkip bool
 }
 
-func (m *mockT) Helper()              {}
-func (m *mockT) Skip(args ...any)     { m.skips++ }
-func (m *mockT) Skipf(string, ...any) { m.skips++ }
-func (m *mockT) SkipNow()             { m.skips++ }
-func (m *mockT) Name() string         { return m.name }
+func (m *mockT) Helper() { vxrt.Jitter() }
+func (m *mockT) skipped() {
+	m.skips++
+	if m.exitOnSkip {
+		runtime.Goexit()
+	}
+}
+func (m *mockT) Skip(args ...any)     { m.skipped() }
+func (m *mockT) Skipf(string, ...any) { m.skipped() }
+func (m *mockT) SkipNow()             { m.skipped() }
+func (m *mockT) Name() string         { vxrt.Jitter(); return m.name }
 func (m *mockT) Error(args ...any)    { m.errors = append(m.errors, first(args)) }
 func (m *mockT) Log(args ...any)      { m.logs = append(m.logs, first(args)) }
-func (m *mockT) Cleanup(f func())     { m.cleanups = append(m.cleanups, f) }
+func (m *mockT) Cleanup(f func())     { vxrt.Jitter(); m.cleanups = append(m.cleanups, f) }
 
 func first(args []any) any {
 	if len(args) == 0 {
@@ -47,6 +58,20 @@ func (m *mockT) end() {
 }
 
 func newT(name string) *mockT { return &mockT{name: name} }
+
+// runTest runs a test body the way package testing does: on a goroutine of its own, so that a
+// skip ends the body (deferred calls run), followed by the test's cleanups.
+func runTest(t *mockT, body func()) {
+	t.exitOnSkip = true
+	var wg sync.WaitGroup
+	wg.Add(1)
+	go func() {
+		defer wg.Done()
+		defer t.end()
+		body()
+	}()
+	wg.Wait()
+}
 
 var _ = fmt.Sprint
 var _ = vxrt.Assert
@@ -232,6 +257,135 @@ func structText(label string, k int) string {
 		default:
 			out += sym() + "/-/-/-/" + sym()
 		}
+	}
+	return out
+}
+
+func itoa(n int) string {
+	if n == 0 {
+		return "0"
+	}
+	s := ""
+	for n > 0 {
+		s = string(rune('0'+n%10)) + s
+		n /= 10
+	}
+	return s
+}
+
+// differs: a != b as one term (lengths are concrete).
+func differs(a, b string) bool { return vxrt.Not(vxrt.Eq(a, b)) }
+
+// escapeRef is the harness's own statement of the terminator escaping: whole
+// lines equal to --- become /-/-/-/.
+func escapeRef(s string) string {
+	out := ""
+	line := ""
+	for i := 0; i <= len(s); i++ {
+		if i == len(s) || s[i] == '\n' {
+			if line == "---" {
+				line = "/-/-/-/"
+			}
+			out += line
+			if i < len(s) {
+				out += "\n"
+			}
+			line = ""
+			continue
+		}
+		line += s[i : i+1]
+	}
+	return out
+}
+
+// compactRef strips insignificant white space (outside strings): the harness's
+// own reference for "parses to the same JSON value" on the template documents.
+func compactRef(s string) string {
+	out := ""
+	inStr := false
+	esc := false
+	for i := 0; i < len(s); i++ {
+		c := s[i]
+		if inStr {
+			out += s[i : i+1]
+			if esc {
+				esc = false
+			} else if c == '\\' {
+				esc = true
+			} else if c == '"' {
+				inStr = false
+			}
+			continue
+		}
+		if c == ' ' || c == '\t' || c == '\n' || c == '\r' {
+			continue
+		}
+		if c == '"' {
+			inStr = true
+		}
+		out += s[i : i+1]
+	}
+	return out
+}
+
+// jsonTemplate builds a small JSON document with symbolic leaves:
+// 0: {"k":"<s>"}   1: ["<s>",<digit>]   2: {"b":<digit>,"a":"<s>"}
+func jsonTemplate(label string, n int) string {
+	s := vxrt.Text(label, vxrt.Len(label+"-len", 0, n))
+	// string content: printable ASCII without quote and backslash
+	for i := 0; i < len(s); i++ {
+		vxrt.Assume(vxrt.And(vxrt.And(s[i] >= 0x20, s[i] < 0x7f), vxrt.And(s[i] != '"', s[i] != '\\')))
+	}
+	switch vxrt.Choice(label+"-shape", 3) {
+	case 0:
+		return `{"k":"` + s + `"}`
+	case 1:
+		d := vxrt.Text(label+"-digit", 1)
+		vxrt.Assume(vxrt.And(d[0] >= '0', d[0] <= '9'))
+		return `["` + s + `",` + d + `]`
+	default:
+		d := vxrt.Text(label+"-digit", 1)
+		vxrt.Assume(vxrt.And(d[0] >= '0', d[0] <= '9'))
+		return `{"b":` + d + `,"a":"` + s + `"}`
+	}
+}
+
+func cfgWithOpt(dir string, opt int) *Config { return cfgWithOptName(dir, opt, "f") }
+
+func cfgWithOptName(dir string, opt int, filename string) *Config {
+	switch opt {
+	case 1:
+		return WithConfig(Dir(dir), Filename(filename), Update(true))
+	case 2:
+		return WithConfig(Dir(dir), Filename(filename), Update(false))
+	}
+	return WithConfig(Dir(dir), Filename(filename))
+}
+
+// k1EscapeAlias is the class of known finding K1: the two texts become equal
+// when every whole line "/-/-/-/" is read as "---" (the escape token is itself
+// a legal line, and comparison happens after unescaping both sides).
+func k1EscapeAlias(a, b string) bool {
+	return vxrt.Eq(unescapeRef(a), unescapeRef(b))
+}
+
+// unescapeRef is the harness's own statement of "map whole lines /-/-/-/ to ---".
+func unescapeRef(s string) string {
+	out := ""
+	line := ""
+	for i := 0; i <= len(s); i++ {
+		if i == len(s) || s[i] == '\n' {
+			if line == "/-/-/-/" {
+				line = "---"
+			}
+			out += line
+			if i < len(s) {
+				out += "\n"
+			}
+			line = ""
+			continue
+		}
+		line += s[i : i+1]
 	}
 	return out
 }
